@@ -95,6 +95,9 @@ def accepted_inputs(t):
 
     :return Xs: a Torch matrix, each row is one string
     """
+    if t.batch:
+        raise ValueError("Batched tensors are not supproted.")
+    t = t.tt()  # The recursion below reads TT cores over the tensor's own indices
     dtype = t.cores[0].dtype
 
     def recursion(Xs, left, rights, bound, mu):
